@@ -53,6 +53,11 @@ class EntryMonitor:
     def check(self, kind, s, pre, post):
         b = self.b
         self.taken.append((b.tick, kind))
+        if (s['cpsr'] >> 24) & 1:
+            # entry from Jazelle / ThumbEE state (only reachable in configurations that have the extension): return-address
+            # offsets of those states are not modelled
+            b.count('probe.entry-from-J-state-not-compared')
+            return
         exp = EM.entry(kind, s)
         for f in self.listeners:
             f(kind, exp, s)
